@@ -36,6 +36,13 @@ class DocServerTransport(httpx.BaseTransport):
     def handle_request(self, request: httpx.Request) -> httpx.Response:
         timeout = request.extensions.get("timeout", {})
         self.log.append(f"net request {request.method} {request.url} timeout={sorted(timeout.items())}")
+        # what httpcore (the real transport) does with a request it cannot route, before any server is involved
+        if request.url.scheme not in ("http", "https"):
+            if not request.url.scheme:
+                raise httpx.UnsupportedProtocol("Request URL is missing an 'http://' or 'https://' protocol.", request=request)
+            raise httpx.UnsupportedProtocol(f"Request URL has an unsupported protocol '{request.url.scheme}://'.", request=request)
+        if not request.url.host:
+            raise httpx.ConnectError("[Errno -2] Name or service not known", request=request)
         f = self.fault
         headers = {}
         if self.content_type is not None:
